@@ -38,15 +38,15 @@ def run(ctx):
         (["ConcMC_sub2_coll.cfg", "ConcMC_sub_val3.cfg"] if thorough else [])
     G = conc_common.gen
     if thorough:
-        jobs = [lambda: G(ctx, "ConcGen_sub_val.cfg", "val", timeout=1800),
-                lambda: G(ctx, "ConcGen_sub_coll.cfg", "coll", timeout=1800),
-                lambda: G(ctx, "ConcGen_sub2_coll.cfg", "coll", simulate="num=40000", timeout=1800),
-                lambda: G(ctx, "ConcGen_sub_val3.cfg", "val", simulate="num=40000", timeout=1800),
+        jobs = [lambda: G(ctx, "ConcGen_sub_val.cfg", "val", timeout=1800, limit=25000),
+                lambda: G(ctx, "ConcGen_sub_coll.cfg", "coll", timeout=1800, limit=25000),
+                lambda: G(ctx, "ConcGen_sub2_coll.cfg", "coll", simulate="num=20000", timeout=1800),
+                lambda: G(ctx, "ConcGen_sub_val3.cfg", "val", simulate="num=20000", timeout=1800),
                 lambda: G(ctx, "ConcGen_sub2_val_mask.cfg", "val", simulate="num=20000", timeout=1800),
                 lambda: G(ctx, "ConcGen_sub2_coll_mask.cfg", "coll", simulate="num=20000", timeout=1800),
-                lambda: G(ctx, "ConcGen_gc_coll.cfg", "coll", simulate="num=40000", timeout=1800),
-                lambda: G(ctx, "ConcGen_lossy_val.cfg", "val", timeout=1800),
-                lambda: G(ctx, "ConcGen_lossy_coll.cfg", "coll", timeout=1800),
+                lambda: G(ctx, "ConcGen_gc_coll.cfg", "coll", simulate="num=20000", timeout=1800),
+                lambda: G(ctx, "ConcGen_lossy_val.cfg", "val", timeout=1800, limit=20000),
+                lambda: G(ctx, "ConcGen_lossy_coll.cfg", "coll", timeout=1800, limit=20000),
                 lambda: G(ctx, "ConcGen_equiv_coll.cfg", "coll", equiv="coll", timeout=1800),
                 lambda: G(ctx, "ConcGen_equiv_val.cfg", "val", equiv="val", timeout=1800)]
         width = 3
@@ -73,20 +73,20 @@ def run(ctx):
     A = conc_common.attacks
     ajobs = [
         # counterexample schedules of the unordered-publication variant (the defect the publication mutex repairs)
-        lambda: A(ctx, "ConcGen_sub_val_pinned.cfg", "val", "converged", 2000 if thorough else 20,
+        lambda: A(ctx, "ConcGen_sub_val_pinned.cfg", "val", "converged", 800 if thorough else 20,
                   simulate=None if thorough else "num=3000"),
-        lambda: A(ctx, "ConcGen_sub_coll_pinned.cfg", "coll", "converged", 2000 if thorough else 20,
+        lambda: A(ctx, "ConcGen_sub_coll_pinned.cfg", "coll", "converged", 800 if thorough else 20,
                   simulate=None if thorough else "num=3000"),
         # ... of the variant whose subscriptions are not serialised with commit+publication (lossy stale item)
-        lambda: A(ctx, "ConcGen_lossy_attack.cfg", "coll", "converged", 2000 if thorough else 25),
+        lambda: A(ctx, "ConcGen_lossy_attack.cfg", "coll", "converged", 800 if thorough else 25),
         # ... of the variant whose bus is garbage-collected from the copy taken when the publication began
-        lambda: A(ctx, "ConcGen_gc_coll_pinned.cfg", "coll", "noMissed", 2000 if thorough else 25,
+        lambda: A(ctx, "ConcGen_gc_coll_pinned.cfg", "coll", "noMissed", 800 if thorough else 25,
                   simulate="num=%d" % (60000 if thorough else 5000)),
         # ... of the variant that keeps what it last sent for an id after handing its removal over
-        lambda: A(ctx, "ConcGen_equiv_coll_keep.cfg", "coll", "converged", 2000 if thorough else 25,
+        lambda: A(ctx, "ConcGen_equiv_coll_keep.cfg", "coll", "converged", 800 if thorough else 25,
                   simulate=None if thorough else "num=3000", equiv="coll")]
     if thorough:
-        ajobs.append(lambda: A(ctx, "ConcGen_lossy_coll_pinned.cfg", "coll", "converged", 2000))
+        ajobs.append(lambda: A(ctx, "ConcGen_lossy_coll_pinned.cfg", "coll", "converged", 800))
     att = [c for r in conc_common.par(ajobs, width=3 if thorough else 6) for c in r]
     ctx.cov["attack_schedules"] = len(att)
     if len(att) < 20:
